@@ -1501,6 +1501,175 @@ fn case_c18(seed: u64, idx: usize, cache: &TableCache, out: &mut String, st: &mu
     }
 }
 
+/// Expected tokens of the pattern list [`a{n}b` (type 0)] on `a^k b`: closed form of C17.
+fn rep_expected(n: usize, k: usize) -> Vec<(usize, usize, usize)> {
+    if k >= n { vec![(0, k - n, k + 1)] } else { vec![] }
+}
+
+/// C17: one configuration of the family; `full` = with reference patterns and the equivalence check.
+fn c17_case(idx: usize, spec: &[ModeSpec], inputs: &[(String, Option<Vec<(usize, usize, usize)>>)], full: bool,
+            model_tokens: bool, big_pairs: usize, cache: &TableCache, rcache: &RefCache, out: &mut String, st: &mut Stats) {
+    st.cases += 1;
+    let modes = cfggen::to_modes(spec);
+    scnr::verif::set_minimizer_log(true);
+    let _ = scnr::verif::take_minimizer_log();
+    let t0 = std::time::Instant::now();
+    let built = catch_unwind(AssertUnwindSafe(|| ScannerBuilder::new().add_scanner_modes(&modes).build_uncached()));
+    let log = scnr::verif::take_minimizer_log();
+    scnr::verif::set_minimizer_log(false);
+    st.count("build_ms_total", t0.elapsed().as_millis() as usize);
+    let _ = writeln!(out, "case {}\nexpect case {}\n# {}", idx, idx, describe(spec).chars().take(300).collect::<String>().replace('\n', "\\n"));
+    let scanner = match built {
+        Err(_) => {
+            out.push_str("oracle FAIL building panicked\nexpect oracle\n");
+            return;
+        }
+        Ok(Err(e)) => {
+            // rejected with an error: allowed by the property
+            st.count("rejected_with_error", 1);
+            let _ = writeln!(out, "# rejected: {}", e.to_string().chars().take(100).collect::<String>().replace('\n', " "));
+            out.push_str("oracle ok\nexpect oracle\n");
+            return;
+        }
+        Ok(Ok(s)) => s,
+    };
+    let dump = scanner.verif_dump();
+    let tables = cache.tables(&scanner, &dump);
+    st.count("dfa_states", dump.modes[0].dfa.states.len());
+    st.count("max_states_before_minimization", log.iter().map(|p| p.0.states.len()).max().unwrap_or(0));
+    proto::write_scanner(out, &dump, &tables);
+    out.push_str("wf\nexpect wf 1\n");
+    if full {
+        if write_patterns(out, spec, rcache) {
+            out.push_str("equiv 0\nexpect equiv ok\n");
+        }
+    }
+    // the minimizer pairs of this build (C03's verified check)
+    for (a, b) in &log {
+        if a.states.len() > big_pairs {
+            continue;
+        }
+        out.push_str("dfa x 0\n");
+        write_dfa_lines(out, a);
+        out.push_str("dfa x 1\n");
+        write_dfa_lines(out, b);
+        let _ = writeln!(out, "equivdfa {}", a.states.len() + 10);
+        out.push_str("expect equivdfa ok\n");
+        st.count("minimizer_pairs", 1);
+    }
+    out.push_str("finder model\n");
+    for (input, expected) in inputs {
+        st.inputs += 1;
+        let real: Vec<(usize, usize, usize)> = match catch_unwind(AssertUnwindSafe(|| {
+            scanner.find_iter(input).take(input.len() + 2).map(|m| (m.token_type(), m.start(), m.end())).collect::<Vec<_>>()
+        })) {
+            Ok(v) => v,
+            Err(_) => {
+                out.push_str("oracle FAIL scanning panicked\nexpect oracle\n");
+                continue;
+            }
+        };
+        if let Some(exp) = expected {
+            if &real == exp {
+                out.push_str("oracle ok\nexpect oracle\n");
+            } else {
+                let _ = writeln!(out, "oracle FAIL input of {} bytes: {} tokens, first {:?}; the longest-match rule prescribes {:?}\nexpect oracle",
+                    input.len(), real.len(), real.first(), exp);
+            }
+        }
+        if model_tokens {
+            let _ = writeln!(out, "input{}", proto::cps(input));
+            out.push_str("new 0\n");
+            for t in &real {
+                let _ = writeln!(out, "next 0\nexpect tok {} {} {}", t.0, t.1, t.2);
+            }
+            out.push_str("next 0\nexpect none\n");
+        }
+    }
+    if st.samples.len() < 3 {
+        st.samples.push(describe(spec).chars().take(200).collect());
+    }
+}
+
+fn rep_spec(n: usize) -> Vec<ModeSpec> {
+    vec![ModeSpec { name: "R".into(), patterns: vec![PatSpec { pattern: format!("a{{{}}}b", n), tid: 0, lookahead: None }], transitions: vec![] }]
+}
+
+fn rep_inputs(n: usize, lens: &[usize]) -> Vec<(String, Option<Vec<(usize, usize, usize)>>)> {
+    lens.iter().map(|k| (format!("{}b", "a".repeat(*k)), Some(rep_expected(n, *k)))).collect()
+}
+
+fn keyword_spec(count: usize, len: usize, seed: u64) -> (Vec<ModeSpec>, Vec<String>) {
+    let mut r = Rng::new(seed);
+    let mut words = std::collections::BTreeSet::new();
+    while words.len() < count {
+        let w: String = (0..len).map(|_| (b'a' + r.below(26) as u8) as char).collect();
+        words.insert(w);
+    }
+    let words: Vec<String> = words.into_iter().collect();
+    let mut patterns: Vec<PatSpec> = words.iter().enumerate().map(|(i, w)| PatSpec { pattern: w.clone(), tid: i, lookahead: None }).collect();
+    patterns.push(PatSpec { pattern: "[a-z]+".into(), tid: count, lookahead: None });
+    patterns.push(PatSpec { pattern: " +".into(), tid: count + 1, lookahead: None });
+    (vec![ModeSpec { name: "K".into(), patterns, transitions: vec![] }], words)
+}
+
+fn keyword_inputs(words: &[String], count: usize, seed: u64) -> Vec<(String, Option<Vec<(usize, usize, usize)>>)> {
+    let mut r = Rng::new(seed ^ 77);
+    let mut input = String::new();
+    let mut exp = Vec::new();
+    for i in 0..30 {
+        let (text, tid) = match r.below(3) {
+            0 => {
+                let k = r.below(words.len());
+                (words[k].clone(), k)
+            }
+            1 => {
+                // a keyword with one more letter is an identifier
+                let k = r.below(words.len());
+                (format!("{}x", words[k]), count)
+            }
+            _ => ("zz".to_string(), count),
+        };
+        if i > 0 {
+            exp.push((count + 1, input.len(), input.len() + 1));
+            input.push(' ');
+        }
+        exp.push((tid, input.len(), input.len() + text.len()));
+        input.push_str(&text);
+    }
+    vec![(input, Some(exp))]
+}
+
+/// C17 driver: deterministic list of configurations (mid-size always; the > 2^16 builds with --n >= 1000).
+fn c17(seed: u64, n: usize, cache: &TableCache, rcache: &RefCache, out: &mut String, st: &mut Stats) {
+    // the id widths the code was compiled with
+    for (name, bits) in scnr::verif::ID_BITS.iter() {
+        st.count(&format!("bits_{}", name), *bits);
+    }
+    let sb = scnr::verif::ID_BITS.iter().find(|x| x.0 == "StateIDBase").unwrap().1;
+    let gb = scnr::verif::ID_BITS.iter().find(|x| x.0 == "StateGroupIDBase").unwrap().1;
+    let _ = writeln!(out, "case 0\nexpect case 0");
+    let _ = writeln!(out, "idbits {} {}\nexpect idbits ok", sb, gb);
+    let mut idx = 1;
+    for rn in [300usize, 700, 1200] {
+        c17_case(idx, &rep_spec(rn), &rep_inputs(rn, &[rn, rn - 1, rn + 1, rn.saturating_sub(256), 0]), true, true, 5000, cache, rcache, out, st);
+        idx += 1;
+    }
+    let (ks, words) = keyword_spec(150, 5, seed);
+    c17_case(idx, &ks, &keyword_inputs(&words, 150, seed), true, true, 5000, cache, rcache, out, st);
+    idx += 1;
+    let narrow = gb < 32 || sb < 32;
+    if n >= 1000 || narrow {
+        // crossing the 2^16 state boundary: a long bounded repetition and a very large keyword list
+        let big = 66000usize;
+        c17_case(idx, &rep_spec(big), &rep_inputs(big, &[big, big - 1, big - 65536, big + 1]), false, false, 70000, cache, rcache, out, st);
+        idx += 1;
+        let (ks, words) = keyword_spec(11500, 6, seed);
+        c17_case(idx, &ks, &keyword_inputs(&words, 11500, seed), false, false, 0, cache, rcache, out, st);
+        st.count("large_builds", 2);
+    }
+}
+
 fn main() {
     // silence panic messages of caught panics
     std::panic::set_hook(Box::new(|_| {}));
@@ -1510,6 +1679,20 @@ fn main() {
     let threads = args.threads.max(1);
     let n = args.n;
     let mut chunks: Vec<(String, Stats)> = Vec::new();
+    if args.suite == "C17" {
+        let mut o = String::new();
+        let mut stt = Stats::default();
+        c17(args.seed, n, &cache, &rcache, &mut o, &mut stt);
+        std::fs::create_dir_all(&args.out).unwrap();
+        std::fs::write(format!("{}/ops.in", args.out), &o).unwrap();
+        let j = serde_json::json!({
+            "suite": args.suite, "seed": args.seed, "cases": stt.cases, "build_err": 0, "build_panic": 0,
+            "inputs": stt.inputs, "ops": stt.ops, "counters": stt.counters, "samples": stt.samples,
+            "class_tables_enumerated": *cache.enumerated.lock().unwrap(),
+        });
+        std::fs::write(format!("{}/stats.json", args.out), serde_json::to_string_pretty(&j).unwrap()).unwrap();
+        return;
+    }
     if args.suite == "C14" {
         let mut o = String::new();
         let mut stt = Stats::default();
